@@ -144,6 +144,19 @@ const (
 // drain reads everything pending in this direction.
 func (d *c11ConnDir) drain(t c11TB, mode, bufSize int, st *vstats.Collector) {
 	t.Helper()
+	// Whole messages handed out by ReadNextMessage stay as they were while
+	// later ones are read (added after seeded change C11f).
+	type heldMsg struct{ got, want []byte }
+	var held []heldMsg
+	defer func() {
+		for i, h := range held {
+			if !bytes.Equal(h.got, h.want) {
+				t.Fatalf("%s: message %d of this batch (%d bytes) was "+
+					"altered after ReadNextMessage had handed it out, by "+
+					"a later read", d.name, i, len(h.got))
+			}
+		}
+	}()
 	for len(d.pending) > 0 {
 		m := mode
 		if d.r.readBuf.Len() > 0 {
@@ -247,6 +260,7 @@ func (d *c11ConnDir) drain(t c11TB, mode, bufSize int, st *vstats.Collector) {
 				t.Fatalf("%s ReadNextMessage returned %d altered bytes "+
 					"(sent %d)", d.name, len(msg), len(head))
 			}
+			held = append(held, heldMsg{got: msg, want: head})
 			d.pending = d.pending[1:]
 
 		default:
